@@ -300,6 +300,10 @@ AS = "src/engine/search/aspiration.rs"
 TT = "src/engine/transposition_table.rs"
 SM = "src/engine/search/mod.rs"
 MUTANTS = [
+    {"name": "score array smaller than the move list (seed C04-3)", "expect": "C04-CONE/engine::search::move_picker::MovePicker",
+     "edits": [("src/engine/search/move_picker.rs", "const MAX_MOVES: usize = u8::MAX as usize;", "const MAX_MOVES: usize = 128;")]},
+    {"name": "per-ply tables and lines shorter than the maximum depth", "expect": "C04-CONE",
+     "edits": [("src/engine/search/mod.rs", "const MAX_SEARCH_DEPTH_SIZE: usize = MAX_SEARCH_DEPTH as usize;", "const MAX_SEARCH_DEPTH_SIZE: usize = 128;")]},
     {"name": "aspiration widening unchecked again (original defect)", "expect": "C04-EVALOP",
      "edits": [(AS, "        self.alpha = clamp_alpha(Eval(self.alpha.0.saturating_sub(self.width.0)));", "        self.alpha = clamp_alpha(self.alpha - self.width);")]},
     {"name": "window width growth unchecked again (original defect)", "expect": "C04-",
